@@ -169,6 +169,20 @@ def systematic(rng):
             nested = E(G.call(grp)) if wrap == "call" else E({"k": "if", "c": b(True), "th": grp, "el": None})
             P(G.assign("gA", {"k": "switch", "v": n(val), "body": [nested, M(n(50)), body[3], M(n(51)), body[4]]}), M(v("gA")))
             P(G.assign("gA", {"k": "switch", "v": n(val), "body": [body[3], nested, M(n(50))]}), M(v("gA")))
+    # switch over strings: labels are compared exactly (also the letter case)
+    S = lambda t: {"k": "str", "s": t}
+    for val in ("b", "B", "c"):
+        for labels in (("B", "b"), ("b", "B"), ("B",), ("a", "B")):
+            sb = [{"k": "case", "x": S(l), "body": [M(S("case " + l)), E(n(10 + i))]} for i, l in enumerate(labels)] + [{"k": "default", "body": [M(S("default")), E(n(40))]}]
+            P(G.assign("gA", {"k": "switch", "v": S(val), "body": sb}), M(v("gA")))
+        P(G.assign("gA", {"k": "switch", "v": S(val), "body": [{"k": "case", "x": S("B")}, {"k": "case", "x": S("a"), "body": [M(n(1)), E(n(1))]}, {"k": "default", "body": [E(n(2))]}]}), M(v("gA")))
+    # an exception thrown by the code of exitWith, taken directly in a try block, is caught by that try
+    for c in (True, False):
+        P(G.assign("gA", {"k": "try", "body": [M(n(1)), {"k": "exitwith", "c": b(c), "body": [M(n(2)), {"k": "throw", "x": n(7)}, M(n(3))]}, M(n(4)), E(n(5))],
+                          "handler": [M(v("_exception")), E(G.binop("+", v("_exception"), n(1)))]}), M(v("gA")))
+    P(G.assign("gA", {"k": "try", "body": [{"k": "foreach", "body": [E({"k": "try", "body": [{"k": "exitwith", "c": G.binop("==", v("_x"), n(2)), "body": [{"k": "throw", "x": v("_x")}]}, M(v("_x")), E(n(0))],
+                                                                        "handler": [M(A(n(9), v("_exception")))]})], "arr": A(n(1), n(2), n(3))}, M(n(8)), E(n(6))],
+                      "handler": [M(n(99))]}), M(v("gA")))
     # try / throw
     P(G.assign("gA", {"k": "try", "body": [M(n(1)), {"k": "throw", "x": n(7)}, M(n(2))], "handler": [M(v("_exception")), E(G.binop("+", v("_exception"), n(1)))]}), M(v("gA")))
     P(G.assign("gA", {"k": "try", "body": [M(n(1)), E(n(3))], "handler": [M(n(2)), E(n(4))]}), M(v("gA")))
